@@ -4,6 +4,7 @@ CONSTANTS
   Blocks = {"a", "b"}
   TilesPerBlock = 1
   Cap = 1
+  Variant = "code"
   MaxOps = 1
 INVARIANT InvMutex
 PROPERTY LiveLookup
